@@ -271,6 +271,10 @@ func (r *FileRestorer) updateImports() error {
 			// no need to resolve the path of a package that has an alias
 			continue
 		}
+		if path == "C" {
+			// the cgo pseudo-package is not a package a resolver can find: it is always called C
+			continue
+		}
 		name, err := r.Resolver.ResolvePackage(path)
 		if err != nil {
 			return fmt.Errorf("could not resolve package %s: %w", path, err)
